@@ -281,6 +281,14 @@ SHARED_OK = {
 }
 
 
+# caches whose blank value means "not known" to every reader, independently of the other fields: a branch that
+# does not inherit them answers the same, only later (they still must not be *aliased* when mutable)
+DROPPABLE_CACHES = {
+    ("SatCacheMixin", "_cached_satness"): "None = unknown, the next query asks the solver",
+    ("SatCacheMixin", "_cached_unsat_core"): "None = not cached; unsat_core() then checks the native solver and reads its core (rule C16.checked)",
+}
+
+
 @rule(
     "FE.copyalias",
     props=("C14", "C11", "C12", "C13"),
@@ -334,6 +342,9 @@ def fe_copyalias(R):
             n += 1
             if (c.name, f) in COPY_EXEMPT:
                 R.ok(m, fn, f"{c.name}.{f} not copied: {COPY_EXEMPT[(c.name, f)]}", nontrivial=False)
+                continue
+            if (c.name, f) in DROPPABLE_CACHES:
+                R.ok(m, fn, f"{c.name}.{f} may be left blank in a branch: {DROPPABLE_CACHES[(c.name, f)]}", nontrivial=False)
                 continue
             if f in subfrontends:
                 # must be deep-copied via self.F._copy(c.F)
